@@ -252,13 +252,25 @@ def obsStr (lens : List Nat) (nstops : Nat) (c : Cfg) : String :=
   let s := if nstops = 0 then 0 else sret nstops c
   s!"D={dash "," d};J={dash "," (c.journal.map showEv)};r={dash "," rs};s={s};E={if c.spc == .rterr then "1" else "0"}"
 
+def RPc.code : RPc → Nat
+  | .a6 => 0 | .a7 => 1 | .a10 => 2 | .a11 => 3 | .a12 => 4 | .r2 => 5 | .r3 => 6 | .r4 => 7 | .r5 => 8
+  | .done => 9
+
+def SPc.code : SPc → Nat
+  | .s2 => 0 | .s3 => 1 | .s4 => 2 | .f2 => 3 | .f5 => 4 | .f6 => 5 | .f7 => 6 | .done => 7 | .rterr => 8
+
+def optN : Option Nat → String
+  | none => "N"
+  | some n => toString n
+
 def keyStr (c : Cfg) : String :=
-  let d := c.slots.map fun s => match s with
-    | some k => s!"{k}:{repr (c.d k)}"
-    | none => "_"
-  let rs := (List.range c.nr).map fun t =>
+  let d := c.slots.foldl (fun acc s => match s with
+    | some k => acc ++ s!"{k}:{optN (c.d k)},"
+    | none => acc ++ "_,") ""
+  let rs := (List.range c.nr).foldl (fun acc t =>
     let r := c.rs t
-    s!"{repr r.pc}{r.ops.length}{repr r.i}{r.nstart}.{r.nstop}"
-  s!"{",".intercalate d}|{",".intercalate rs}|{repr c.spc}{c.scalls}|{c.itOn}{c.pos}.{c.expect}.{c.left}|{c.snapOn}{repr c.snap}|{c.key}{repr c.si}|{c.journal.length}"
+    acc ++ s!"{r.pc.code}.{r.ops.length}.{optN r.i}.{r.nstart}.{r.nstop},") ""
+  let snap := c.snap.foldl (fun acc k => acc ++ s!"{k},") ""
+  s!"{d}|{rs}|{c.spc.code}.{c.scalls}|{c.itOn}{c.pos}.{c.expect}.{c.left}|{c.snapOn}{snap}|{c.key}.{optN c.si}|{c.journal.length}"
 
 end CpModel.ThreadMgr
